@@ -43,8 +43,11 @@ TRUSTED_BASE_COMMON = [
 ]
 
 
+_T0 = time.time()
+
+
 def log(*a):
-    print(*a, file=sys.stderr, flush=True)
+    print("[%7.1fs]" % (time.time() - _T0), *a, file=sys.stderr, flush=True)
 
 
 class Lock:
